@@ -9,9 +9,10 @@ try:
     na_reasons = json.load(open(os.path.join(ROOT, "tools", "not_applicable.json")))
 except OSError:
     pass
+claimed = set(open(os.path.join(ROOT, "tools", "claimed.txt")).read().split())
 for pid in props:
     p = os.path.join(ROOT, "checks", pid.lower(), "jobs.json")
-    if not os.path.exists(p):
+    if not os.path.exists(p) or pid not in claimed:
         na.append({"property_id": pid, "reason": na_reasons.get(pid, "check not built yet in this session; planned in DESIGN.md section 3")})
         continue
     cfg = json.load(open(p))
